@@ -483,6 +483,144 @@ def zeroes_scene(unit):
     return out
 
 
+def capacity_decisions(unit, cap="maxgeom", status="status"):
+    """Every place of this TU where the capacity of the geom array takes part in a decision or leaves the function.
+
+    A local assigned from an expression that reads `->cap` carries the capacity (transitively).  For every branching
+    construct (if / loops / ?:) whose condition reads the capacity or such a local:
+        dict(function, file, line, kind="cond", expr, reported)   reported: some arm stores a non-zero value to
+                                                                     `->status` or calls a no-return error handler
+    and for every other use of the capacity that is not a plain initialisation of a carrying local:
+        dict(..., kind="escape")                                     (argument of a call, returned value, stored away)
+    """
+    out = []
+    for fname, fn in unit.funcs.items():
+        if (fn.get("file") or unit.tu) != unit.tu:
+            continue
+        reads = []
+        par = {}
+        for n in cir.walk(fn):
+            for c in cir.kids(n):
+                if c is not None:
+                    par[id(c)] = n
+            if n.get("k") == "MemberExpr" and n.get("arrow") and n.get("n") == cap:
+                c = cir.kids(n)
+                base = cir.strip(c[0]) if c else None
+                if base is not None and modref._struct_of(base.get("t")) == SCENE:
+                    p = par.get(id(n))
+                    is_store = False
+                    q, e = p, n
+                    while q is not None and q.get("k") in cir.TRANSPARENT:
+                        e, q = q, par.get(id(q))
+                    if q is not None and ((q.get("k") == "BinaryOperator" and q.get("op") == "=") or
+                                          q.get("k") == "CompoundAssignOperator") and cir.kids(q)[0] is e:
+                        is_store = True
+                    if not is_store:
+                        reads.append(n)
+        if not reads:
+            continue
+        carriers = set()
+        changed = True
+
+        def carries(e):
+            for x in cir.walk(e):
+                if any(x is r for r in reads):
+                    return True
+                if x.get("k") == "DeclRefExpr" and (x.get("ref") or {}).get("id") in carriers:
+                    return True
+            return False
+
+        while changed:
+            changed = False
+            for n in cir.walk(fn):
+                if n.get("k") == "VarDecl" and n.get("id") not in carriers:
+                    init = [c for c in cir.kids(n) if c is not None]
+                    if init and carries(init[-1]):
+                        carriers.add(n.get("id"))
+                        changed = True
+                elif n.get("k") == "BinaryOperator" and n.get("op") == "=":
+                    l, r = cir.kids(n)
+                    l = cir.strip(l)
+                    if l is not None and l.get("k") == "DeclRefExpr" and (l.get("ref") or {}).get("k") == "VarDecl" and \
+                            (l.get("ref") or {}).get("id") not in carriers and carries(r):
+                        carriers.add(l["ref"].get("id"))
+                        changed = True
+        errv = set()
+
+        def reports(arm):
+            if arm is None:
+                return False
+            for x in cir.walk(arm):
+                if cir.is_call(x) and paths.is_noreturn_call(x, errv):
+                    return True
+                if x.get("k") == "BinaryOperator" and x.get("op") == "=":
+                    rf = modref.root_field(cir.kids(x)[0])
+                    if rf is not None and rf[0] == SCENE and rf[1] == status and rf[2] == 0 and _int_lit(cir.kids(x)[1]) != 0:
+                        return True
+            return False
+
+        in_cond = set()
+        for n in cir.walk(fn):
+            k = n.get("k")
+            cond, arms = None, []
+            kids = cir.kids(n)
+            if k == "IfStmt":
+                cond, then, els = _if_parts(n)
+                arms = [then, els]
+            elif k == "WhileStmt":
+                cond, arms = kids[0], [kids[-1]]
+            elif k == "DoStmt":
+                cond, arms = kids[1], [kids[0]]
+            elif k == "ForStmt":
+                fk = list(kids) + [None] * (5 - len(kids))
+                cond, arms = fk[2], [fk[4]]
+            elif k == "ConditionalOperator":
+                cond, arms = kids[0], kids[1:]
+            if cond is None or not carries(cond):
+                continue
+            for x in cir.walk(cond):
+                in_cond.add(id(x))
+            out.append({"function": fname, "file": fn.get("file") or unit.tu, "line": n.get("line") or fn.get("line"),
+                        "kind": "cond", "expr": cir.text(cond)[:120], "reported": any(reports(a) for a in arms)})
+        # other uses: a read that is neither inside a recorded condition nor the initialiser of a carrying local
+        init_nodes = set()
+        for n in cir.walk(fn):
+            if n.get("k") == "VarDecl" and n.get("id") in carriers:
+                for c in cir.kids(n):
+                    if c is not None:
+                        for x in cir.walk(c):
+                            init_nodes.add(id(x))
+            elif n.get("k") == "BinaryOperator" and n.get("op") == "=":
+                l = cir.strip(cir.kids(n)[0])
+                if l is not None and l.get("k") == "DeclRefExpr" and (l.get("ref") or {}).get("id") in carriers:
+                    for x in cir.walk(cir.kids(n)[1]):
+                        init_nodes.add(id(x))
+        for r in reads:
+            if id(r) in in_cond or id(r) in init_nodes:
+                continue
+            out.append({"function": fname, "file": fn.get("file") or unit.tu, "line": r.get("line") or fn.get("line"),
+                        "kind": "escape", "expr": cir.text(par.get(id(r)) or r)[:120], "reported": False})
+    return out
+
+
+def _if_parts(n):
+    c = list(cir.kids(n))
+    idx = int(bool(n.get("hasInit"))) + int(bool(n.get("hasVar")))
+    return c[idx], (c[idx + 1] if len(c) > idx + 1 else None), (c[idx + 2] if len(c) > idx + 2 else None)
+
+
+def _option_index_sites(unit):
+    from . import ctypeinfo, r_bound
+    quick = False
+    for fn in unit.funcs.values():
+        if (fn.get("file") or unit.tu) == unit.tu and any("mjvOption" in (p.get("t") or "") for p in cir.params(fn)):
+            quick = True
+            break
+    if not quick:
+        return []
+    return r_bound.index_sites(unit, "mjvOption", ctypeinfo.load()["enumerators"])
+
+
 def tu_facts(unit):
     """Worker entry: accesses + scene-zeroing functions + call order in functions that pass a tracked field + the
     functions called in this TU whose signature mentions mjvGeom (candidates for acquire/release call sites)."""
@@ -506,7 +644,7 @@ def tu_facts(unit):
                 geom_callees.add(cir.callee(c))
     defs = sorted(n for n, fn in unit.funcs.items() if (fn.get("file") or unit.tu) == unit.tu)
     return {"access": acc, "zeroes": zeroes_scene(unit), "order": order, "geom_callees": sorted(geom_callees),
-            "defs": defs}
+            "defs": defs, "capacity": capacity_decisions(unit), "index": _option_index_sites(unit)}
 
 
 def cap_alloc(unit, name, cap="maxgeom", arr="geoms", elem="mjvGeom"):
